@@ -704,10 +704,11 @@ class Emitter:
             s.alloc_helpers[hn] = ct
         return hn
 
-    def mem_helper(s, ct):
+    def mem_helper(s, ct, zero=False):
         hn = re.sub(r'[^A-Za-z0-9_]', '_', ct.replace('*', '_p'))
-        if not hasattr(s, 'mem_helpers'): s.mem_helpers = collections.OrderedDict()
+        if not hasattr(s, 'mem_helpers'): s.mem_helpers = collections.OrderedDict(); s.mem_zero = set()
         s.mem_helpers[hn] = ct
+        if zero: s.mem_zero.add(hn)
         return hn
 
     def canon(s, name):
@@ -1544,6 +1545,8 @@ def emit_call(em, fc, f, I, lab, edge):
                 else:
                     hn = em.mem_helper(ct)
                     out.append('__ll2c_%s_%s((%s*)%s, (%s*)%s, (uint64_t)%s);' % ('memmove' if mv else 'memcpy', hn, ct, A[0], ct, A[1], A[2]))
+            elif isinstance(args[2][1], VInt):
+                if args[2][1].v: out.append('%s((void*)%s, (void*)%s, %dULL);' % ('memmove' if mv else 'memcpy', A[0], A[1], args[2][1].v))
             else:
                 fnm = '__ll2c_memmove' if mv else '__ll2c_memcpy'
                 out.append('%s((void*)%s, (void*)%s, (uint64_t)%s);' % (fnm, A[0], A[1], A[2]))
@@ -1552,8 +1555,10 @@ def emit_call(em, fc, f, I, lab, edge):
             rt_ = em.resolve(td) if td is not None else None
             if rt_ is not None and isinstance(rt_, (TInt, TPtr)) and isinstance(args[1][1], VInt) and args[1][1].v == 0:
                 ct = em.ctype(td)
-                hn = em.mem_helper(ct)
+                hn = em.mem_helper(ct, zero=True)
                 out.append('__ll2c_memzero_%s((%s*)%s, (uint64_t)%s);' % (hn, ct, A[0], A[2]))
+            elif isinstance(args[2][1], VInt):
+                if args[2][1].v: out.append('memset((void*)%s, %s, %dULL);' % (A[0], A[1], args[2][1].v))
             else:
                 out.append('__ll2c_memset((void*)%s, %s, (uint64_t)%s);' % (A[0], A[1], A[2]))
         elif nm.startswith('fshl.') or nm.startswith('fshr.'):
@@ -1804,6 +1809,8 @@ static void __ll2c_memmove_@H@(@T@* d, @T@* s, uint64_t bytes) {
   if ((uintptr_t)d <= (uintptr_t)s) { for (uint64_t i = 0; i < n; i++) d[i] = s[i]; }
   else { for (uint64_t i = n; i > 0; i--) d[i-1] = s[i-1]; }
 }
+"""
+MEM_HELPER_ZERO = r"""
 static void __ll2c_memzero_@H@(@T@* d, uint64_t bytes) {
   __ll2c_check_aligned(bytes % sizeof(@T@) == 0);
   uint64_t n = bytes / sizeof(@T@);
@@ -1892,6 +1899,7 @@ def main():
             o.write(ALLOC_HELPER.replace('@H@', hn).replace('@T@', ct))
         for hn, ct in getattr(em, 'mem_helpers', {}).items():
             o.write(MEM_HELPER.replace('@H@', hn).replace('@T@', ct))
+            if hn in em.mem_zero: o.write(MEM_HELPER_ZERO.replace('@H@', hn).replace('@T@', ct))
         o.write('\n'.join(protos) + '\n')
         # globals: declarations first, then definitions
         for g, c in gcode.items():
